@@ -4,6 +4,11 @@ package txt
 
 // Machine-checked contracts for package txt (comment-only; see klog/contracts_verif.go).
 
+// valid(text): the serial parser accepts the text, i.e. reports no error for it. The symbol is uninterpreted;
+// engine.SerialParser.Parse gives it its meaning (`defines`; there is one serial parser in the module, the klog record
+// parser). It is declared here because every package that talks about texts imports txt.
+//@ spec valid(text string) bool
+
 // blank(l): the line consists of spaces and tabs only. The symbol is uninterpreted; (*Line).IsBlank gives it its
 // meaning (`defines`), and IsBlank's body is verified against the byte-level characterisation.
 //@ spec blank(l Line) bool
